@@ -317,7 +317,8 @@ def judge(case, cfg, ref, d, hist, mon, margins):
         mon["h5_files_compared"] += 1
         mon["h5_datasets_compared"] += n
         mon["h5_files_bitwise_equal"] += int(bitwise and not probs)
-        margins["h5_value_vs_uninterrupted"] = max(margins.get("h5_value_vs_uninterrupted", 0.0), min(worst, 1e300))
+        if not any(p["what"] == "value" for p in probs):   # a violating ratio is a witness, not a margin
+            margins["h5_value_vs_uninterrupted"] = max(margins.get("h5_value_vs_uninterrupted", 0.0), worst)
         if probs:
             # add the step of the first deviating row, for the witness
             for p in probs:
@@ -349,10 +350,11 @@ def judge(case, cfg, ref, d, hist, mon, margins):
             dx = float(np.abs(f["xyz"] - r["xyz"]).max()) if f["xyz"].shape == r["xyz"].shape else float("inf")
             de = abs(f["E"] - r["E"])
             # printed with 5 / 9 decimals: a 1e-9 difference can at most flip the last printed digit
-            margins["xyz_frame_vs_uninterrupted"] = max(margins.get("xyz_frame_vs_uninterrupted", 0.0),
-                                                        dx / 1.5e-5, de / 1.5e-9)
             if dx > 1.5e-5 or de > 1.5e-9:
                 vp.append({"label": f["label"], "dx": dx, "dE": de})
+            else:
+                margins["xyz_frame_vs_uninterrupted"] = max(margins.get("xyz_frame_vs_uninterrupted", 0.0),
+                                                            dx / 1.5e-5, de / 1.5e-9)
         if labels != ref["xyz"][key]["labels"] or fp or vp:
             v("xyz-frames", {"file": key, "observed": labels, "expected": ref["xyz"][key]["labels"],
                              "parse_problems": fp[:3], "value_problems": vp[:5]})
